@@ -148,6 +148,9 @@ class Strikethrough(SpanToken):
     pattern = re.compile(r"(?<!\\)(?:\\\\)*~~(.+?)~~", re.DOTALL)
 
 
+_REFERENCE_FORMS = ("full", "collapsed", "shortcut")
+
+
 class Image(SpanToken):
     """
     Image token. ("![alt](src "title")")
@@ -162,9 +165,13 @@ class Image(SpanToken):
     repr_attributes = ("src", "title")
 
     def __init__(self, match):
-        self.src = EscapeSequence.strip(match.group(2).strip())
-        self.title = EscapeSequence.strip(match.group(3))
         self.dest_type = getattr(match, "dest_type", None)
+        if self.dest_type in _REFERENCE_FORMS:
+            # taken from a link reference definition, where escapes have been resolved already
+            self.src, self.title = match.group(2), match.group(3)
+        else:
+            self.src = EscapeSequence.strip(match.group(2).strip())
+            self.title = EscapeSequence.strip(match.group(3))
         self.label = getattr(match, "label", None)
         self.title_delimiter = getattr(match, "title_delimiter", None)
 
@@ -183,9 +190,13 @@ class Link(SpanToken):
     repr_attributes = ("target", "title")
 
     def __init__(self, match):
-        self.target = EscapeSequence.strip(match.group(2).strip())
-        self.title = EscapeSequence.strip(match.group(3))
         self.dest_type = getattr(match, "dest_type", None)
+        if self.dest_type in _REFERENCE_FORMS:
+            # taken from a link reference definition, where escapes have been resolved already
+            self.target, self.title = match.group(2), match.group(3)
+        else:
+            self.target = EscapeSequence.strip(match.group(2).strip())
+            self.title = EscapeSequence.strip(match.group(3))
         self.label = getattr(match, "label", None)
         self.title_delimiter = getattr(match, "title_delimiter", None)
 
